@@ -23,6 +23,7 @@ Streams (``case["kind"]``):
 """
 import atexit
 import contextlib
+import re
 import itertools
 import os
 import shutil
@@ -209,7 +210,79 @@ def eff(case):
     o["with_ref"] = bool(case.get("with_ref", True))
     o["transformed"] = bool(case.get("mvn") or case.get("delta"))
     o["workers"] = int(case.get("num_workers", 0))
+    o["drop"] = bool(case["drop"])
+    # SpectDataSet decides AT CONSTRUCTION whether alignments are available (`has_ali`): it does not even
+    # look for ali/ when built with suppress_alis=True (listed finding C14.attr.suppress_alis_after_construction)
+    o["ali_found"] = o["with_ali"] and not (cls.startswith("spect") and o["suppress_alis"])
+    o["left"], o["right"], o["reverse"] = case.get("left", 0), case.get("right", 0), bool(case.get("reverse"))
     return o
+
+
+# Public attributes that the code re-reads at iteration time and that a script may therefore assign
+# AFTER construction (the documented contract of an attribute: the object then behaves like one
+# constructed with that value). FLAG_ATTRS are known to the Lean `View` model (`Attr`); "drop" is the
+# batch sampler's `drop_incomplete` / `drop_last` (`VOp.setDrop`); the context-window attributes only
+# change what a window looks like (harness-level presentation, no operation of the Lean model).
+FLAG_ATTRS = ("batch_first", "sort_batch", "suppress_uttids", "suppress_alis", "tokens_only")
+CTX_ATTRS = ("left", "right", "reverse")
+SNAP_KEYS = FLAG_ATTRS + ("drop",) + CTX_ATTRS
+LATE_POS = ("start", "mid", "end")
+
+
+def late_attrs(cls):
+    """The assignable attributes of a loader class (and of its data set / batch sampler)."""
+    if cls.startswith("cw"):
+        return ("suppress_uttids",) + CTX_ATTRS
+    if cls == "lang":
+        return ("batch_first", "sort_batch", "suppress_uttids", "tokens_only")
+    return FLAG_ATTRS
+
+
+def with_attr(o, name, value):
+    """The options in force after `obj.name = value`."""
+    o = dict(o)
+    o[name] = value if name in ("left", "right") else bool(value)
+    return o
+
+
+def snap(o):
+    return {k: o[k] for k in SNAP_KEYS}
+
+
+def assign_attr(loader, name, value):
+    """`loader.batch_first = v` / `loader.dataset.suppress_uttids = v` / `loader.batch_sampler.drop_incomplete = v`
+    ...; returns what the attribute reads afterwards."""
+    from pydrobert.torch.data import BucketBatchSampler
+    if name in ("batch_first", "sort_batch"):
+        obj = loader
+    elif name == "drop":
+        obj = loader.batch_sampler
+        name = "drop_incomplete" if isinstance(obj, BucketBatchSampler) else "drop_last"
+    else:
+        obj = loader.dataset
+    setattr(obj, name, value)
+    return getattr(obj, name)
+
+
+def model_op(op, arg):
+    """An operation as the Lean driver reads it (None: no operation of the model)."""
+    if op == "attr":
+        name, value = arg
+        if name in CTX_ATTRS:
+            return None
+        return {"drop": bool(value)} if name == "drop" else {"attr": [name, bool(value)]}
+    if op in ("set", "next", "peek"):
+        return {op: arg}
+    return op if op in ("open", "len") else "serve"
+
+
+def aligned(case, impl, model):
+    """(operation, what the implementation showed, what the model showed) per operation; the model has
+    no event for an operation it does not know (None)."""
+    mi = iter((model or {}).get("events", ()))
+    for (op, arg), a in zip(ops_of(case), impl.get("events", ())):
+        b = next(mi, None) if model_op(op, arg) is not None else None
+        yield (op, arg), a, b
 
 
 def ref_expected(case, o, i):
@@ -247,6 +320,8 @@ def weave_of(case):
             out += [("next", int(w[1]))] * n_full
         elif w[0] in ("open", "len"):
             out.append((w[0], None))
+        elif w[0] == "attr":
+            out.append(("attr", (w[1], w[2])))
         else:
             out.append((w[0], int(w[1])))
     return out
@@ -260,12 +335,20 @@ def ops_of(case):
     finally a rewind to the first epoch + one epoch."""
     o = eff(case)
     e0 = o["init_epoch"]
-    ops = [("serve", "epoch")] * case["epochs"]
+
+    def late(pos):      # assignments to public attributes after construction: [position, attribute, value]
+        return [("attr", (n, v)) for p, n, v in case.get("late") or () if p == pos]
+    ops = late("start")
+    for i in range(case["epochs"]):
+        ops.append(("serve", "epoch"))
+        if i == 0:
+            ops += late("mid")
     if case.get("jump") is not None:
         ops += [("set", int(case["jump"])), ("serve", "jump")]
     if case.get("abandon"):
         ops += [("set", e0), ("partial", "abandoned"), ("serve", "after_abandon")]
     ops += weave_of(case)
+    ops += late("end")
     ops += [("set", e0), ("serve", "rewound")]
     return ops
 
@@ -280,6 +363,8 @@ def epochs_reached(case):
             e = arg
         elif op == "open":
             started.append(False)
+        elif op == "attr":
+            pass
         elif op == "len":
             out.add(e)
         elif op == "peek":
@@ -342,7 +427,15 @@ class C14(PropertyCheck):
             "iteration, an interleaved section - up to three iter(loader) objects alive at once and advanced "
             "alternately, len(loader) / sampler.get_samples_for_epoch(e') / loader.epoch = e' after the first, "
             "any, every batch of passes that are continued to their end -, rewind, fresh loader at the last "
-            "epoch). non-trivial: >= 2 buckets in use or an "
+            "epoch; PUBLIC ATTRIBUTES ASSIGNED AFTER CONSTRUCTION - loader.batch_first / sort_batch, "
+            "loader.dataset.suppress_alis / suppress_uttids / tokens_only / left / right / reverse, "
+            "loader.batch_sampler.drop_incomplete | drop_last (no process group), the epoch through "
+            "batch_sampler.sampler.epoch - before the first pass, between passes, before the last pass and "
+            "between iter(loader) / the batches of a live iterator, to the other or the same value than "
+            "constructed, every batch judged by the values at ITS collate call, the last epoch pass compared "
+            "member by member with a loader constructed with the values in force; sampler stream: "
+            "BucketBatchSampler.sampler / idx2bucket / bucket2size / drop_incomplete assigned after construction "
+            "and flipped on the used object, base_seed of a library EpochRandomSampler re-assigned). non-trivial: >= 2 buckets in use or an "
             "incomplete batch (sampler/loader), a padded row (collate), an edge-padded window; distinct by "
             "the case dict")
     assumptions = [
@@ -357,6 +450,10 @@ class C14(PropertyCheck):
         "defaults of the deprecated Training/Evaluation loader classes taken from their signatures "
         "(CLS_DEFAULTS in harness/c14.py)",
         "size_batch_by_length with a zero-length bucket bound: ZeroDivisionError is a listed known finding",
+        "an attribute assigned after construction takes effect at the next collate / dataset[i] call "
+        "(num_workers=0; with worker processes only assignments made before iter(loader) are generated)",
+        "SpectDataSet fixes at construction whether alignments are available (has_ali): after "
+        "dataset.suppress_alis = False on a data set built with True the ali member is None (listed known finding)",
     ]
     exhaustive = {"quick": False, "thorough": False}
     _seeds = {}         # base seeds drawn by loaders built without `seed` (run_impl -> model_request)
@@ -645,20 +742,42 @@ class C14(PropertyCheck):
             case["abandon"] = True
         if bad_kwarg:
             case["bad_kwarg"] = bad_kwarg
-        else:
-            case["weave"] = self.weave_script(rng, len(eff(case)["ids"]), e0, case["epochs"])
+            return case
+        # ---- public attributes assigned AFTER construction (before the first pass / between passes /
+        # before the last pass); the constructor got the case's own value (or the class default)
+        o = eff(case)
+
+        def draw(name):
+            if name in ("left", "right"):
+                return rng.randrange(0, 3)
+            return (not o[name]) if rng.random() < 0.7 else bool(o[name])
+        names = list(late_attrs(cls)) + ([] if world else ["drop"])
+        if rng.random() < 0.45:
+            case["late"] = [[rng.choice(LATE_POS), n, draw(n)]
+                            for n in rng.sample(names, rng.choice((1, 1, 2, 3)))]
+        if rng.random() < 0.1:
+            case["epoch_via"] = "sampler"       # loader.batch_sampler.sampler.epoch = e instead of loader.epoch = e
+        case["weave"] = self.weave_script(rng, len(o["ids"]), e0, case["epochs"],
+                                          [(n, draw(n)) for n in late_attrs(cls)])
         return case
 
     @staticmethod
-    def weave_script(rng, N, e0, epochs):
+    def weave_script(rng, N, e0, epochs, attrs=()):
         """An interleaved section (see `weave_of`): what a training script may do with a loader
         WHILE a pass over it is in flight, the pass being continued to its end afterwards - len()
         for a progress display after the first / any / every batch, a look-up of another epoch's
         samples, a second (third) iterator of the same loader advanced alternately (zip(loader,
-        loader)), an epoch assignment; one iterator may be left unfinished."""
+        loader)), an epoch assignment, an assignment to a public attribute of the loader / its data
+        set (`attrs`: (name, value) pairs to draw from) that every LATER collate call has to honour;
+        one iterator may be left unfinished."""
         some_epoch = lambda: rng.choice((e0, e0, e0 + 1, max(e0 - 1, 0), e0 + epochs, rng.randrange(0, e0 + epochs + 4)))
         w = [["set", e0]] if rng.random() < 0.7 else []
-        pat = rng.choice(("log_every", "log_once", "peek_once", "zip", "zip_len", "random", "random"))
+        pat = rng.choice(("log_every", "log_once", "peek_once", "zip", "zip_len", "random", "random")
+                         + (("attr_once", "attr_once") if attrs else ()))
+
+        def attr():
+            n, v = rng.choice(attrs)
+            return ["attr", n, v]
         if pat == "log_every":          # for i, batch in enumerate(loader): print(i, len(loader))
             w.append(["open"])
             for _ in range(N + 1):
@@ -669,6 +788,15 @@ class C14(PropertyCheck):
             w.append(["len"] if pat == "log_once" else ["peek", some_epoch()])
             if rng.random() < 0.3:
                 w.append(rng.choice((["len"], ["peek", some_epoch()])))
+            w.append(["drain", 0])
+        elif pat == "attr_once":        # loader.batch_first = False (..) before / in the middle of a pass
+            if rng.random() < 0.4:
+                w.append(attr())
+            w.append(["open"])
+            if rng.random() < 0.4:      # between iter(loader) and the first batch
+                w.append(attr())
+            w += [["next", 0]] * rng.choice((0, 1, 1, max(N // 2, 1), rng.randrange(1, N + 2)))
+            w += [attr() for _ in range(rng.choice((1, 1, 2)))]
             w.append(["drain", 0])
         elif pat in ("zip", "zip_len"):             # for a, b in zip(loader, loader)
             w += [["open"], ["open"]]
@@ -684,8 +812,10 @@ class C14(PropertyCheck):
                     w.append(["open"])
                     alive.append(n_it)
                     n_it += 1
-                elif r < 0.65:
+                elif r < 0.6:
                     w.append(["next", rng.choice(alive)])
+                elif r < 0.68 and attrs:
+                    w.append(attr())
                 elif r < 0.8:
                     w.append(["len"])
                 elif r < 0.92:
@@ -743,20 +873,20 @@ class C14(PropertyCheck):
             if real:
                 smp.epoch = e
 
-        def length():
+        def length(obj=None):
             if plain:
                 return "undefined"
             rewind()
             try:
-                return int(_get_batch_sampler_len(bs))
+                return int(_get_batch_sampler_len(bs if obj is None else obj))
             except Exception as e:
                 return {"err": type(e).__name__}
 
-        def full(e=E):
+        def full(e=E, obj=None):
             out, err = [], None
             rewind(e)
             try:
-                for b in bs:
+                for b in (bs if obj is None else obj):
                     out.append([int(x) for x in b])
             except Exception as e:
                 err = type(e).__name__
@@ -813,7 +943,37 @@ class C14(PropertyCheck):
                 live.remove(it)
         woven = (got[0] == out and got[1] == out_b and errs == [err, err_b] and mid2 == ln
                  and (other is None or other == list(range(len(case["order"])))))
+        # the documented public attributes (sampler, idx2bucket, bucket2size, drop_incomplete) are read at
+        # iteration time: (1) an object built from OTHER values and then ASSIGNED this case's behaves like the
+        # one constructed with them; (2) flipping drop_incomplete on the used object gives what an object
+        # constructed with the flipped flag gives, flipping it back restores the first behaviour
+        drop = bool(case["drop"]) and not case.get("drop_omitted")
+        late = BucketBatchSampler([] if plain else ListSampler([]), {}, {}, not drop)
+        late.sampler, late.idx2bucket, late.bucket2size, late.drop_incomplete = smp, i2b, b2s, drop
+        assigned = [full(obj=late), length(late), late.drop_incomplete]
+        flipped = BucketBatchSampler(smp, i2b, b2s, not drop)
+        want_flip = [full(obj=flipped), length(flipped)]
+        bs.drop_incomplete = not drop
+        got_flip = [full(), length()]
+        bs.drop_incomplete = drop
+        back = [full(), length()]
+        attr_detail = None
+        if assigned != [(out, err), ln, drop]:
+            attr_detail = {"assigned_after_construction": assigned, "constructed": [[out, err], ln, drop]}
+        elif got_flip != want_flip:
+            attr_detail = {"drop_incomplete_flipped_on_the_object": got_flip, "constructed_flipped": want_flip}
+        elif back != [(out, err), ln]:
+            attr_detail = {"drop_incomplete_flipped_back": back, "at_first": [[out, err], ln]}
+        elif case.get("sampler") == "epoch_random":
+            # the epoch sampler's documented attribute base_seed, assigned after construction
+            smp.base_seed = case["seed"] + 1
+            fresh = EpochRandomSampler(range(len(case["order"])), E, case["seed"] + 1, "ignore")
+            got_s, want_s = ([int(x) for x in q.get_samples_for_epoch(E + 1)] for q in (smp, fresh))
+            smp.base_seed = case["seed"]
+            if got_s != want_s or [int(x) for x in smp.get_samples_for_epoch(E)] != case["order"]:
+                attr_detail = {"base_seed_assigned": got_s, "constructed_with_it": want_s}
         return {"batches": out, "err": err, "len": ln, "repeatable": again == out and err == err2,
+                "attrs_ok": attr_detail is None, "attrs_detail": attr_detail,
                 "after_abandon": third == out and err3 == err and mid == ln
                 and (first is None or (bool(out) and [int(x) for x in first] == out[0])),
                 "interleaved": woven,
@@ -1015,10 +1175,10 @@ class C14(PropertyCheck):
                 dkw["do_mvn"] = True
             if case.get("delta"):
                 dkw["delta_order"] = int(case["delta"])
-        lkw = {"batch_size": case["B"], "drop_last": case["drop"]}
+        lkw = {"batch_size": case["B"], "drop_last": o["drop"]}
         if o["cw"]:
             if "context" not in via:
-                dkw.update(context_left=case["left"], context_right=case["right"], reverse=case["reverse"])
+                dkw.update(context_left=o["left"], context_right=o["right"], reverse=o["reverse"])
             merged, lonly, donly = (data.ContextWindowDataLoaderParams, data.DataLoaderParams,
                                     data.ContextWindowDataParams)
         else:
@@ -1042,12 +1202,12 @@ class C14(PropertyCheck):
             return merged(subset_ids=sub, **lkw), donly(**dkw)
         return lonly(**lkw), donly(**dkw)
 
-    def ds_kwargs(self, case, o, for_dataset):
+    def ds_kwargs(self, case, o, for_dataset, om=None):
         """Keyword arguments that describe the data set (given to the loader with a path, to the
         data-set constructor with `data_as == 'dataset'`)."""
         import torch
         cls = case["cls"]
-        om = omitted(case)
+        om = omitted(case) if om is None else om
         kw = {}
         if case.get("prefix"):
             kw["file_prefix"] = case["prefix"]
@@ -1063,7 +1223,7 @@ class C14(PropertyCheck):
         if not for_dataset:
             via = case.get("via_kwargs", ())
             if "context" in via:
-                kw.update(left=case["left"], right=case["right"], reverse=case["reverse"])
+                kw.update(left=o["left"], right=o["right"], reverse=o["reverse"])
             if "sos_eos" in via:
                 kw.update({k: o[k] for k in ("sos", "eos") if o[k] is not None})
             if "subset" in via:
@@ -1075,13 +1235,17 @@ class C14(PropertyCheck):
                 kw[k] = o[k]
         return kw
 
-    def build_loader(self, case, epoch=None):
+    def build_loader(self, case, epoch=None, now=None):
         """The loader of the case; `epoch`: construct it at that epoch instead of the case's
-        (possibly omitted) `init_epoch`."""
+        (possibly omitted) `init_epoch`; `now`: construct it WITH these values of the assignable
+        attributes (all passed explicitly) instead of the case's constructor values."""
         from pydrobert.torch import data
         cls = case["cls"]
         o = eff(case)
         om = omitted(case)
+        if now is not None:
+            o = {**o, **now}
+            om = om - set(SNAP_KEYS)
         d = dataset_dir(case["lens"], case["rlens"], case["two_d"], o["with_ali"], o["with_ref"],
                         case.get("prefix", ""), case.get("suffix", ".pt"), bool(case.get("subdirs")))
         root = os.path.join(d, SUBDIRS[bool(case.get("subdirs"))][2]) if cls == "lang" else d
@@ -1092,10 +1256,10 @@ class C14(PropertyCheck):
             ds_cls = data.LangDataSet if cls == "lang" else (
                 data.ContextWindowDataSet if o["cw"] else data.SpectDataSet)
             target = ds_cls(root, params=data_params if data_params is not None else params,
-                            **self.ds_kwargs(case, o, True))
+                            **self.ds_kwargs(case, o, True, om))
         else:
             target = root
-            kw.update(self.ds_kwargs(case, o, False))
+            kw.update(self.ds_kwargs(case, o, False, om))
         if data_params is not None:
             kw["data_params"] = data_params
         for k in ("shuffle", "sort_batch", "batch_first"):
@@ -1120,7 +1284,7 @@ class C14(PropertyCheck):
                 "cw_eval": data.ContextWindowEvaluationDataLoader}[cls]
         return ctor(target, params, **kw)
 
-    def expected_utts(self, case, o, ds):
+    def expected_utts(self, case, o, ds, feats=None):
         """What every utterance of the (possibly restricted) data set looks like, by data-set
         index. Untransformed features / alignments / references come from the generator's own
         coding; with a feature transform (mvn, deltas) the data set's own item is the original."""
@@ -1131,11 +1295,15 @@ class C14(PropertyCheck):
             if o["lang"]:
                 feat = None
             elif o["transformed"]:
-                feat = ds.get_utterance_tuple(j)[0]
+                if feats is None or j not in feats:     # (the features do not depend on the assignable flags)
+                    feat = ds.get_utterance_tuple(j)[0]
+                    if feats is not None:
+                        feats[j] = feat
+                feat = feat if feats is None else feats[j]
             else:
                 feat = torch.tensor(feat_of(i, T), dtype=torch.float).view(T, F)
             out.append({"i": i, "id": utt_id(i), "T": T, "feat": feat,
-                        "ali": ali_of(i, T) if (o["with_ali"] and not o["suppress_alis"]) else None,
+                        "ali": ali_of(i, T) if (o["ali_found"] and not o["suppress_alis"]) else None,
                         "ref": ref_expected(case, o, i) if (o["with_ref"] and not o["cw"]) else None})
         return out
 
@@ -1173,12 +1341,14 @@ class C14(PropertyCheck):
             return {"rows": [], "problems": ["the bucketed member of the batch is None"], "has_ids": has_ids}
         n_rows = key.size(0)
         if sizes.numel() != n_rows:
-            probs.append(f"{sizes.numel()} sizes for {n_rows} rows")
+            probs.append(f"{sizes.numel()} sizes for {n_rows} rows (the padded member has shape "
+                         f"{tuple((refs if lang else feats).shape)}, batch_first = {bf} at this call)")
             return {"rows": [], "problems": probs, "has_ids": has_ids}
         if sizes.dtype != torch.long:
             probs.append(f"sizes have dtype {sizes.dtype}")
         if n_rows and key.size(1) != int(sizes.max()):
-            probs.append(f"padded length {key.size(1)} != longest reported size {int(sizes.max())}")
+            probs.append(f"padded length {key.size(1)} != longest reported size {int(sizes.max())} (the padded "
+                         f"member has shape {tuple((refs if lang else feats).shape)}, batch_first = {bf} at this call)")
         if ids is not None and len(ids) != n_rows:
             probs.append(f"{len(ids)} ids for {n_rows} rows")
             return {"rows": [], "problems": probs, "has_ids": has_ids}
@@ -1246,7 +1416,7 @@ class C14(PropertyCheck):
             ids = list(ids)
         else:
             (windows, alis), wsizes, ids = batch, None, None
-        left, right, rev = case["left"], case["right"], case["reverse"]
+        left, right, rev = o["left"], o["right"], o["reverse"]
         C = 1 + left + right
         if windows.dim() != 3 or windows.size(1) != C:
             probs.append(f"windows shape {list(windows.shape)}")
@@ -1300,6 +1470,26 @@ class C14(PropertyCheck):
             probs.append(f"{len(ids)} ids for {len(rows)} utterances")
         return {"rows": rows, "problems": probs, "has_ids": has_ids}
 
+    @staticmethod
+    def same_batches(xs, ys):
+        """Two lists of collated batches, member by member (None = identical; else where they differ)."""
+        import torch
+        if len(xs) != len(ys):
+            return f"{len(xs)} batches vs {len(ys)}"
+        for n, (x, y) in enumerate(zip(xs, ys)):
+            x, y = (list(t) if isinstance(t, (tuple, list)) else [t] for t in (x, y))
+            if len(x) != len(y):
+                return f"batch {n}: tuples of {len(x)} vs {len(y)} members"
+            for m, (u, v) in enumerate(zip(x, y)):
+                if isinstance(u, torch.Tensor) or isinstance(v, torch.Tensor):
+                    if not (isinstance(u, torch.Tensor) and isinstance(v, torch.Tensor) and u.dtype == v.dtype
+                            and u.shape == v.shape and torch.equal(u, v)):
+                        shp = [tuple(t.shape) if isinstance(t, torch.Tensor) else t for t in (u, v)]
+                        return f"batch {n}, member {m}: {shp[0]} vs {shp[1]}"
+                elif (u is None) != (v is None) or (u is not None and list(u) != list(v)):
+                    return f"batch {n}, member {m}: {u} vs {v}"
+        return None
+
     def impl_loader(self, case):
         import torch
         o = eff(case)
@@ -1311,18 +1501,31 @@ class C14(PropertyCheck):
                 torch.manual_seed(case["seed"])
             loader = self.build_loader(case)
             ds = loader.dataset
-            exp = self.expected_utts(case, o, ds)
+            cur = dict(o)       # the options in force: the constructor's, then whatever was assigned since
+            exps, feats = {}, {}
+
+            def exp():
+                key = (cur["suppress_alis"], cur["tokens_only"])
+                if key not in exps:
+                    exps[key] = self.expected_utts(case, cur, ds, feats)
+                return exps[key]
+            exp()
             obs = {"serves": [], "n_utts": len(ds), "utt_ids": list(ds.utt_ids)}
             if seedless:
                 obs["base_seed"] = int(getattr(loader.batch_sampler.sampler, "base_seed", -1))
                 self._seeds[self.key(case)] = obs["base_seed"]
+            raw_last = []
 
-            def full(tag):
+            def full(tag, keep=None):
                 eb, lb = int(loader.epoch), len(loader)
-                bs = [self.canon_batch(case, o, exp, b) for b in loader]
+                bs = []
+                for b in loader:
+                    if keep is not None:
+                        keep.append(b)
+                    bs.append(self.canon_batch(case, cur, exp(), b))
                 return {"tag": tag, "epoch_before": eb, "len_before": lb, "rows": [b["rows"] for b in bs],
                         "problems": [p for b in bs for p in b["problems"]][:5],
-                        "has_ids": [b["has_ids"] for b in bs][:1],
+                        "has_ids": [b["has_ids"] for b in bs][:1], "opts": snap(cur),
                         "len_after": len(loader), "epoch_after": int(loader.epoch)}
             its = []            # the iter(loader) objects of the interleaved section, all kept alive
             obs["events"] = []
@@ -1333,39 +1536,55 @@ class C14(PropertyCheck):
                         its.append(iter(loader))
                     elif op == "next":
                         ev["k"] = arg
+                        ev["opts"] = snap(cur)
                         try:
-                            cb = self.canon_batch(case, o, exp, next(its[arg]))
+                            cb = self.canon_batch(case, cur, exp(), next(its[arg]))
                             ev["row"], ev["problems"] = cb["rows"], cb["problems"][:3]
                         except StopIteration:
                             ev["stop"] = True
                     elif op == "len":
                         ev["len"] = len(loader)
+                        ev["opts"] = snap(cur)
                     else:
                         ev["of"] = arg
                         ev["samples"] = [int(x) for x in loader.batch_sampler.sampler.get_samples_for_epoch(arg)]
                     ev["epoch_after"] = int(loader.epoch)
                     obs["events"].append(ev)
                     continue
+                if op == "attr":        # an assignment to a public attribute, after construction
+                    eb = int(loader.epoch)
+                    back = assign_attr(loader, arg[0], arg[1])
+                    cur = with_attr(cur, arg[0], arg[1])
+                    obs["events"].append({"op": "attr", "name": arg[0], "value": arg[1], "reads_back": back,
+                                          "opts": snap(cur), "epoch_before": eb, "epoch_after": int(loader.epoch)})
+                    continue
                 obs["events"].append(None)
                 if op == "set":
-                    loader.epoch = arg
+                    if case.get("epoch_via") == "sampler":
+                        loader.batch_sampler.sampler.epoch = arg
+                    else:
+                        loader.epoch = arg
                 elif op == "serve":
-                    obs["serves"].append(full(arg))
-                    if arg == "epoch" and len(obs["serves"]) == k:
+                    last = arg == "epoch" and len(obs["serves"]) == k - 1
+                    obs["serves"].append(full(arg, raw_last if last else None))
+                    if last:
                         obs["epoch_attr"] = int(loader.epoch)
-                        # identical (seed, epoch) => identical batches: a fresh loader started at the last epoch
+                        # identical (seed, epoch) => identical batches: a fresh loader CONSTRUCTED with the
+                        # values the attributes have by now, started at the last epoch, member by member
                         if seedless:
                             torch.manual_seed(case["seed"])
-                        l2 = self.build_loader(case, epoch=e0 + k - 1)
-                        obs["direct_last"] = [self.canon_batch(case, o, exp, b)["rows"] for b in l2]
+                        l2 = self.build_loader(case, epoch=e0 + k - 1, now=None if snap(cur) == snap(o) else snap(cur))
+                        raw2 = list(l2)
+                        obs["direct_last"] = [self.canon_batch(case, cur, exp(), b)["rows"] for b in raw2]
+                        obs["direct_diff"] = self.same_batches(raw_last, raw2)
                 else:       # an iteration abandoned after its first batch
                     eb, lb = int(loader.epoch), len(loader)
                     it = iter(loader)
                     first = next(it, None)
                     del it
                     obs["serves"].append({
-                        "tag": arg, "partial": True, "epoch_before": eb, "len_before": lb,
-                        "first": None if first is None else self.canon_batch(case, o, exp, first)["rows"],
+                        "tag": arg, "partial": True, "epoch_before": eb, "len_before": lb, "opts": snap(cur),
+                        "first": None if first is None else self.canon_batch(case, cur, exp(), first)["rows"],
                         "epoch_after": int(loader.epoch)})
         return obs
 
@@ -1407,12 +1626,11 @@ class C14(PropertyCheck):
             W = case.get("world", 0)
             return {"op": "c14.loader", "case": {
                 "lens": key_lens(case), "nb": o["nb"], "B": case["B"], "dynamic": case["dynamic"],
-                "drop": case["drop"], "sort": o["sort_batch"], "cw": o["cw"], "mode": o["uneven"],
+                "drop": case["drop"], "cls": "cw" if o["cw"] else "lang" if o["lang"] else "spect",
+                "present": {k: bool(o[k]) for k in FLAG_ATTRS}, "mode": o["uneven"],
                 "dist": [case.get("rank", 0), W] if W else None, "init_epoch": o["init_epoch"],
                 "perms": [[e, ordering(case, seed, e, N)] for e in epochs_reached(case)],
-                "ops": [{"set": arg} if op == "set" else {"next": arg} if op == "next" else
-                        {"peek": arg} if op == "peek" else op if op in ("open", "len") else "serve"
-                        for op, arg in ops_of(case)]}}
+                "ops": [m for m in (model_op(op, arg) for op, arg in ops_of(case)) if m is not None]}}
         return None
 
     # ================================================================== correspondence
@@ -1517,10 +1735,11 @@ class C14(PropertyCheck):
                 continue
             if a["epoch_before"] != b["epoch"]:
                 out.append(w + f"loader.epoch = {a['epoch_before']} before the pass")
+            out += [w + x for x in self.flags_differ(a, b)]
             if a["len_before"] != b["len"]:
                 out.append(w + f"len() before the pass impl={a['len_before']} model={b['len']}")
             want = b["rows"]
-            if o["cw"] and o["suppress_uttids"]:
+            if o["cw"] and a["opts"]["suppress_uttids"]:
                 want = [[x for x in r if lens[x] > 0] for r in want]    # invisible without sizes
             if a.get("partial"):
                 first = want[0] if want else None
@@ -1535,14 +1754,17 @@ class C14(PropertyCheck):
             if lib != b["order"]:
                 out.append(w + f"sample order of a library sampler object {lib} != C13 model {b['order']}")
         # the interleaved section, operation by operation
-        invisible = o["cw"] and o["suppress_uttids"]
-        for n, ((op, arg), a, b) in enumerate(zip(ops_of(case), impl.get("events", ()), model.get("events", ()))):
-            if op not in WEAVE_OPS or a is None:
+        invisible = False
+        for n, ((op, arg), a, b) in enumerate(aligned(case, impl, model)):
+            if a is None or b is None or (op not in WEAVE_OPS and op != "attr"):
                 continue
             w = f"operation {n} ({op}{'' if arg is None else ' ' + str(arg)}, loader at epoch {b['epoch']}): "
             if a["epoch_before"] != b["epoch"] or a["epoch_after"] != b["epoch_after"]:
                 out.append(w + f"loader.epoch {a['epoch_before']} -> {a['epoch_after']}, model "
                            f"{b['epoch']} -> {b['epoch_after']}")
+            if "opts" in a:
+                out += [w + x for x in self.flags_differ(a, b)]
+                invisible = o["cw"] and a["opts"]["suppress_uttids"]
             if op == "next":
                 if "err" in b:
                     out.append(w + f"model fails with {b['err']}")
@@ -1559,6 +1781,17 @@ class C14(PropertyCheck):
                 out.append(w + f"get_samples_for_epoch({arg}) impl={a['samples']} model={b['samples']}")
         if impl["serves"] and impl["serves"][-1]["epoch_after"] != model["final_epoch"]:
             out.append(f"loader.epoch = {impl['serves'][-1]['epoch_after']} at the end, model {model['final_epoch']}")
+        return out
+
+    @staticmethod
+    def flags_differ(a, b):
+        """The flags the harness tracked for an operation of the implementation (constructor values,
+        then every assignment) against the flags the Lean `View` model holds there."""
+        out = []
+        for k in FLAG_ATTRS + ("drop",):
+            m = b["drop"] if k == "drop" else b["present"][k]
+            if a["opts"][k] != m:
+                out.append(f"{k} in force: harness {a['opts'][k]}, model {m}")
         return out
 
     # ================================================================== the property itself
@@ -1629,6 +1862,11 @@ class C14(PropertyCheck):
             fails.append(("two iterations of the batch sampler alive at once (advanced alternately, len() asked after "
                           "the first batch, both continued to their end) do not each yield the batches of a lone "
                           f"iteration {impl['batches']}: {impl['interleaved_detail']}", "C14.interleaved"))
+        if not impl.get("attrs_ok", True):
+            fails.append(("the batch sampler's public attributes (sampler, idx2bucket, bucket2size, drop_incomplete; base_seed of "
+                          "an EpochRandomSampler underneath) "
+                          "assigned after construction do not give what an object constructed with these values "
+                          f"gives: {impl['attrs_detail']}", "C14.attr.sampler"))
         return fails
 
     def pred_params(self, case, impl, model):
@@ -1843,7 +2081,7 @@ class C14(PropertyCheck):
                 sig = "C14.loader.lang_bucket_indexerror"
             elif cls in ("spect_train", "spect_eval") and "on_uneven_distributed" in msg:
                 sig = "C14.loader.deprecated_seed_positional"
-            return [(f"{cls} loader raised {impl['error']}: {msg} ", sig)]
+            return [(f"{cls} loader raised {impl['error']}: {msg} ", sig or f"C14.loader.raises.{impl['error']}")]
         fails = []
         want_ids = [utt_id(i) for i in o["ids"]]
         if impl["utt_ids"] != want_ids:
@@ -1875,9 +2113,16 @@ class C14(PropertyCheck):
                 fails.append((where + p, "C14.loader.collate"))
             order = b["order"]      # C13's model: this rank's share of the epoch's ordering
             batches = a["rows"]
-            invisible = o["cw"] and o["suppress_uttids"]
+            # the options in force when each batch was collated: the constructor's values, then every
+            # assignment made since (for an interleaved iterator they may change from batch to batch)
+            per = a["per_batch"] if "per_batch" in a else [a["opts"]] * len(batches)
+            drop = per[-1]["drop"] if per else a.get("opts", o)["drop"]
+            invisible = o["cw"] and any(q["suppress_uttids"] for q in per)
             if invisible:
                 order = [x for x in order if lens[x] > 0]
+                # (a no-op for batches collated without sizes; with suppress_uttids switched off in the middle
+                # of the pass the later batches do show their utterances without frames)
+                batches = [[x for x in bt if lens[x] > 0] for bt in batches]
             if o["nb"] > 1:
                 i2b, sizes = params["idx2bucket"], params["sizes"]
                 spec = self.py_spec(order, lambda x: i2b[x], sizes)
@@ -1895,60 +2140,128 @@ class C14(PropertyCheck):
             if any(x not in order for bt in batches for x in bt):
                 fails.append((where + "a batch holds an index the sampler did not produce", "C14.cover"))
                 continue
+            canon = None
             if invisible and any(lens[x] == 0 for x in b["order"]):
                 pass        # batch boundaries around an utterance without windows cannot be seen
             else:
                 unsorted = [sorted(bt, key=order.index) for bt in batches]
-                fails += self.check_batches(unsorted, order, bucket_of, spec, case["drop"], where)
-                if o["sort_batch"]:
-                    for bt in batches:
+                fails += self.check_batches(unsorted, order, bucket_of, spec, drop, where)
+                for bt, u, q in zip(batches, unsorted, per):
+                    if q["sort_batch"]:
                         if any(lens[bt[i]] < lens[bt[i + 1]] for i in range(len(bt) - 1)):
-                            fails.append((where + f"batch {bt} not sorted by length", "C14.loader.sort"))
+                            fails.append((where + f"batch {bt} not sorted by length although sort_batch is "
+                                          "on at that call", "C14.loader.sort"))
                         elif bt != sorted(bt, key=lambda x: (-lens[x], order.index(x))):
                             fails.append((where + f"batch {bt}: utterances of equal length are not in sampler "
                                           "order (the arrangement is the stable descending sort)", "C14.loader.sort_stable"))
-                elif batches != unsorted:
-                    fails.append((where + "rows are not in sampler order although sort_batch is off",
-                                  "C14.loader.order"))
+                    elif bt != u:
+                        fails.append((where + f"rows {bt} are not in sampler order although sort_batch is off "
+                                      "at that call", "C14.loader.order"))
+                canon = unsorted
             if a["len_before"] is not None and a["len_before"] != len(batches):
                 first = impl["serves"][0]["len_before"]
                 stale = a is not impl["serves"][0] and a["len_before"] == first
                 fails.append((where + f"len() = {a['len_before']} before the pass, {len(batches)} batches yielded",
                               "C14.loader.len_stale" if stale else "C14.loader.len"))
-            by_epoch.setdefault(e, []).append((a["tag"], batches))
-        # len() after a pass refers to the next epoch: where that one was served, compare
+            by_epoch.setdefault(e, []).append({"tag": a["tag"], "rows": batches, "drop": drop, "canon": canon,
+                                               "sorts": [q["sort_batch"] for q in per], "invisible": invisible})
+        # len() after a pass refers to the next epoch: where that one was served (same drop flag), compare
         for a in impl["serves"]:
             if a.get("partial"):
                 continue
-            nxt = by_epoch.get(a["epoch_before"] + 1)
-            if nxt and a["len_after"] is not None and a["len_after"] != len(nxt[0][1]):
+            nxt = [g for g in by_epoch.get(a["epoch_before"] + 1, ()) if g["drop"] == a["opts"]["drop"]]
+            if nxt and a["len_after"] is not None and a["len_after"] != len(nxt[0]["rows"]):
                 fails.append((f"{a['tag']} pass, epoch {a['epoch_before']}: len() = {a['len_after']} afterwards, "
-                              f"epoch {a['epoch_before'] + 1} has {len(nxt[0][1])} batches", "C14.loader.len"))
+                              f"epoch {a['epoch_before'] + 1} has {len(nxt[0]['rows'])} batches", "C14.loader.len"))
         # identical (seed, epoch) => identical batches, whatever happened to the object before
         e_last = o["init_epoch"] + case["epochs"] - 1
         if "direct_last" in impl:
-            by_epoch.setdefault(e_last, []).append(("a loader constructed at that epoch", impl["direct_last"]))
+            # constructed WITH the values the attributes had when the last epoch pass ran
+            ref = [g for g in by_epoch.get(e_last, ()) if g["tag"] == "epoch"][-1:]
+            if ref:
+                by_epoch[e_last].append({"tag": "a loader constructed at that epoch", "rows": impl["direct_last"],
+                                         "drop": ref[0]["drop"], "canon": None, "sorts": ref[0]["sorts"],
+                                         "invisible": ref[0]["invisible"]})
+            if impl.get("direct_diff"):
+                now = [x for x in impl["serves"] if x["tag"] == "epoch"][-1]["opts"]
+                sig = "C14.attr.construct"
+                if (cls.startswith("spect") and o["with_ali"] and o["suppress_alis"] and not now["suppress_alis"]
+                        and re.match(r"batch \d+, member 1: None vs \(", impl["direct_diff"])):
+                    # known: a SpectDataSet built with suppress_alis=True never looked for alignments
+                    # (has_ali = False), so `alis` stays None after dataset.suppress_alis = False
+                    sig = "C14.attr.suppress_alis_after_construction"
+                fails.append((f"epoch {e_last}: the pass over the loader (attributes as constructed / assigned "
+                              f"since: {now}) and a loader CONSTRUCTED with these values at that epoch differ: "
+                              f"{impl['direct_diff']}", sig))
+
+        def same_batch(x, y, sx, sy):
+            # the same arrangement where the same sort flag was in force at both calls (each arrangement is
+            # judged against its own flag above); the same utterances in any case
+            return x == y if sx == sy else (x is not None and y is not None and sorted(x) == sorted(y))
         for e, got in by_epoch.items():
-            for tag, rows in got[1:]:
-                if rows != got[0][1]:
-                    fails.append((f"epoch {e}: the {got[0][0]} pass yields {got[0][1]}, {tag} {rows}",
-                                  "C14.loader.determinism"))
+            g0 = got[0]
+            for g in got[1:]:
+                if g["drop"] != g0["drop"]:
+                    continue        # the batch sampler was told to treat incomplete batches differently
+                r0, r1 = g0["rows"], g["rows"]
+                if g.get("invisible") != g0.get("invisible"):
+                    # context windows without sizes / ids: an utterance without frames cannot be seen
+                    r0, r1 = ([[x for x in bt if lens[x] > 0] for bt in r] for r in (r0, r1))
+                    if 0 in lens:
+                        r0, r1 = ([x for bt in r for x in bt] for r in (r0, r1))   # nor the batch borders around it
+                        r0, r1 = [r0], [r1]
+                if len(r1) != len(r0) or not all(
+                        same_batch(x, y, sx, sy) for x, y, sx, sy in zip(r0, r1, g0["sorts"] or [None], g["sorts"] or [None])):
+                    fails.append((f"epoch {e}: the {g0['tag']} pass yields {g0['rows']}, {g['tag']} {g['rows']}"
+                                  + ("" if g["sorts"] == g0["sorts"] else f" (sort_batch per batch: {g0['sorts']} / "
+                                                                         f"{g['sorts']})"), "C14.loader.determinism"))
         for a in serves_i:
             if a.get("partial"):
-                full = by_epoch.get(a["epoch_before"])
+                full = [g for g in by_epoch.get(a["epoch_before"], ()) if g["drop"] == a["opts"]["drop"]]
                 if full:
-                    first = full[0][1][0] if full[0][1] else None
-                    if a["first"] != first:
+                    g0 = full[0]
+                    first = g0["rows"][0] if g0["rows"] else None
+                    s_first = g0["sorts"][0] if g0["sorts"] else None
+                    sa = a["per_batch"] if a.get("woven") else [a["opts"]]
+                    if (o["cw"] and any(q["suppress_uttids"] for q in sa)) != bool(g0.get("invisible")):
+                        # context windows without sizes / ids on one side: utterances without frames (and the
+                        # batch borders around them) cannot be seen there
+                        def flat(rows):
+                            return [x for bt in rows for x in bt if lens[x] > 0]
+                        mine = flat(a["rows"] if a.get("woven") else [a["first"] or []])
+                        if mine != flat(g0["rows"])[:len(mine)]:
+                            fails.append((f"epoch {a['epoch_before']}: the {a['tag']} pass (not consumed to its "
+                                          f"end) yields {mine}.., the {g0['tag']} pass {g0['rows']}",
+                                          "C14.loader.determinism"))
+                        continue
+                    s_mine = sa[0]["sort_batch"] if sa and first is not None else s_first
+                    if a["first"] != first and not (a["first"] is not None and first is not None
+                                                    and same_batch(a["first"], first, s_mine, s_first)):
                         fails.append((f"epoch {a['epoch_before']}: the abandoned pass starts with {a['first']}, "
                                       f"a full pass with {first}", "C14.loader.determinism"))
-                    elif a.get("woven") and a["rows"] != full[0][1][:len(a["rows"])]:
+                    elif a.get("woven") and not all(
+                            same_batch(x, y, q["sort_batch"], sy)
+                            for x, y, q, sy in zip(a["rows"], g0["rows"], a["per_batch"], g0["sorts"])):
                         fails.append((f"epoch {a['epoch_before']}: the {a['tag']} (not consumed to its end) "
-                                      f"yields {a['rows']}, the {full[0][0]} pass {full[0][1]}",
+                                      f"yields {a['rows']}, the {g0['tag']} pass {g0['rows']}",
+                                      "C14.loader.determinism"))
+                    elif a.get("woven") and len(a["rows"]) > len(g0["rows"]):
+                        fails.append((f"epoch {a['epoch_before']}: the {a['tag']} (not consumed to its end) "
+                                      f"yields {a['rows']}, the {g0['tag']} pass only {g0['rows']}",
                                       "C14.loader.determinism"))
         fails += self.weave_lookups(case, o, lens, impl, by_epoch)
-        s0 = impl["serves"][0] if impl["serves"] else None
-        if s0 and s0.get("has_ids") and s0["has_ids"][0] != (not o["suppress_uttids"]):
-            fails.append(("suppress_uttids not honoured", "C14.loader.uttids"))
+        for s0 in impl["serves"]:
+            if s0.get("has_ids") and s0["has_ids"][0] != (not s0["opts"]["suppress_uttids"]):
+                fails.append((f"{s0['tag']} pass, epoch {s0['epoch_before']}: suppress_uttids = "
+                              f"{s0['opts']['suppress_uttids']} not honoured", "C14.loader.uttids"))
+        for n, a in enumerate(impl.get("events", ())):
+            if a and a["op"] == "attr":
+                if a["reads_back"] != a["value"]:
+                    fails.append((f"operation {n}: {a['name']} = {a['value']} assigned, the attribute reads "
+                                  f"{a['reads_back']}", "C14.attr.readback"))
+                if a["epoch_after"] != a["epoch_before"]:
+                    fails.append((f"operation {n}: assigning {a['name']} moved loader.epoch "
+                                  f"{a['epoch_before']} -> {a['epoch_after']}", "C14.loader.epoch"))
         return fails
 
     @staticmethod
@@ -1957,13 +2270,14 @@ class C14(PropertyCheck):
         stood at when its first batch was requested; `b` carries the model's sample order of that
         epoch (C13's model) as oracle for the cover / bucket predicates."""
         its = {}
-        for (op, arg), a, b in zip(ops_of(case), impl.get("events", ()), (model or {}).get("events", ())):
-            if op != "next" or a is None:
+        for (op, arg), a, b in aligned(case, impl, model):
+            if op != "next" or a is None or b is None:
                 continue
             if arg not in its:
                 its[arg] = {"a": {"tag": f"interleaved iterator {arg}", "woven": True, "done": False,
                                   "epoch_before": a["epoch_before"], "epoch_after": a["epoch_after"],
-                                  "rows": [], "problems": [], "len_before": None, "len_after": None},
+                                  "rows": [], "problems": [], "len_before": None, "len_after": None,
+                                  "per_batch": [], "opts": a["opts"]},
                             "b": {"epoch": b["epoch"], "order": b["order"]}}
             pa = its[arg]["a"]
             if a.get("stop"):
@@ -1972,6 +2286,7 @@ class C14(PropertyCheck):
                 pa["problems"].append("a batch after StopIteration")
             else:
                 pa["rows"].append(a["row"])
+                pa["per_batch"].append(a["opts"])
                 pa["problems"] += a["problems"]
         for w in its.values():
             if not w["a"]["done"]:      # not consumed to its end: only a prefix is known
@@ -1997,21 +2312,21 @@ class C14(PropertyCheck):
                 fails.append((f"operation {n} ({op}): loader.epoch {e} -> {a['epoch_after']}; only a full pass, an "
                               "assignment and the first next() of an iterator move it (by one)", "C14.loader.epoch"))
             if op == "len":
-                got = by_epoch.get(e)
-                if got and a["len"] != len(got[0][1]):
+                got = [g for g in by_epoch.get(e, ()) if g["drop"] == a["opts"]["drop"]]
+                if got and a["len"] != len(got[0]["rows"]):
                     fails.append((f"operation {n}: len() = {a['len']} asked while iterators are alive and the "
-                                  f"loader stands at epoch {e}; the {got[0][0]} pass over that epoch has "
-                                  f"{len(got[0][1])} batches", "C14.loader.len"))
+                                  f"loader stands at epoch {e}; the {got[0]['tag']} pass over that epoch has "
+                                  f"{len(got[0]['rows'])} batches", "C14.loader.len"))
             elif op == "peek":
                 smp = a["samples"]
                 if len(set(smp)) != len(smp) or any(not 0 <= x < N for x in smp):
                     fails.append((f"operation {n}: get_samples_for_epoch({arg}) = {smp} repeats or invents an index",
                                   "C14.cover"))
-                got = by_epoch.get(arg)
-                if got and not case["drop"] and not (o["cw"] and o["suppress_uttids"] and 0 in lens):
-                    if multiset(x for bt in got[0][1] for x in bt) != multiset(smp):
-                        fails.append((f"operation {n}: get_samples_for_epoch({arg}) = {smp}, but the {got[0][0]} "
-                                      f"pass over epoch {arg} delivers {got[0][1]}", "C14.cover"))
+                got = [g for g in by_epoch.get(arg, ()) if not g["drop"]]
+                if got and not (got[0].get("invisible") and 0 in lens):
+                    if multiset(x for bt in got[0]["rows"] for x in bt) != multiset(smp):
+                        fails.append((f"operation {n}: get_samples_for_epoch({arg}) = {smp}, but the {got[0]['tag']} "
+                                      f"pass over epoch {arg} delivers {got[0]['rows']}", "C14.cover"))
         return fails
 
     @staticmethod
@@ -2113,6 +2428,16 @@ class C14(PropertyCheck):
                 t.append(f"interleaved=live_iterators_{min(kinds.count('open'), 3)}")
                 if "set" in kinds[1:]:
                     t.append("interleaved=epoch_assignment")
+                started = False
+                for x in w:
+                    started = started or x[0] in ("next", "drain")
+                    if x[0] == "attr":
+                        t.append(f"assigned={x[1]}@{'mid_pass' if started else 'interleaved_section'}")
+            for pos, name, value in case.get("late") or ():
+                t.append(f"assigned={name}@{pos}")
+                t.append("assigned_value=" + ("other_than_constructed" if value != o[name] else "as_constructed"))
+            if case.get("epoch_via"):
+                t.append("epoch_assigned_via=sampler_attribute")
             if case.get("jump") is not None:
                 e_end = o["init_epoch"] + case["epochs"]
                 t.append("jump=" + ("back" if case["jump"] < e_end else "forward" if case["jump"] > e_end else "same"))
@@ -2174,7 +2499,13 @@ class C14(PropertyCheck):
                     c = dict(case)
                     c["weave"] = cand
                     yield c
-            for f in ("omit", "data_as", "split_params", "legacy_params", "subset", "sos", "eos", "mvn",
+            late = case.get("late") or []
+            for i in range(len(late)):
+                if len(late) > 1:
+                    c = dict(case)
+                    c["late"] = late[:i] + late[i + 1:]
+                    yield c
+            for f in ("late", "epoch_via", "omit", "data_as", "split_params", "legacy_params", "subset", "sos", "eos", "mvn",
                       "delta", "pin_memory", "prefix", "suffix", "subdirs", "with_ali", "with_ref", "jump",
                       "abandon", "num_workers", "subset_via_loader_params", "via_kwargs", "weave"):
                 if f in case:
